@@ -9,6 +9,7 @@ import (
 
 	"github.com/pion/logging"
 	"github.com/pion/turn/v5/internal/proto"
+	"github.com/pion/turn/v5/internal/verifhook"
 )
 
 // ChannelBind represents a TURN Channel
@@ -33,6 +34,7 @@ func NewChannelBind(number proto.ChannelNumber, peer net.Addr, log logging.Level
 
 func (c *ChannelBind) start(lifetime time.Duration) {
 	c.lifetimeTimer = time.AfterFunc(lifetime, func() {
+		verifhook.At("chan.expire", c)
 		if !c.allocation.RemoveChannelBind(c.Number) {
 			c.log.Errorf("Failed to remove ChannelBind for %v %x %v", c.Number, c.Peer, c.allocation.fiveTuple)
 		}
